@@ -38,7 +38,9 @@ RULE = ("histories of 2..4 writers (XML / protobuf; precisions 1..12 incl. the d
         "pool of 3 names that collide, rarely ''; modes ALWAYS / SKIP / ASK (scripted answer); 0..2 files existing beforehand "
         "(30% of them empty). Per DIMENSIONS (checked against the real signatures every run): each of author / affiliation / "
         "source / tags / location explicit or not per writer, precision as int or numpy.int64, facade without file_format, empty "
-        "planning-problem set, empty tags, int coordinates, a 1e8 coordinate, traffic sign / light; between calls: user code "
+        "planning-problem set, empty tags, int coordinates, a 1e8 coordinate, lanelet boundary coordinates that are 0 or +-m*10**-e, e = "
+        "1..13 (85% of the inputs: below the resolution of a coarser XML writer used between the writes of writers that resolve them), "
+        "traffic sign / light; between calls: user code "
         "assigns precision.decimals, setters (author, affiliation, source, tags, location, root_node) on any live writer, "
         "in-place edits of the scenario / planning-problem set (6 kinds), read-only queries of the scenario (7 kinds) and of the "
         "writer (root_node, check_validity_of_commonroad_file); write options check_validity=True, keyword arguments; failing "
@@ -80,7 +82,9 @@ REQUIRED_BUCKETS = ["fmt/xml", "fmt/pb", "kind/full", "kind/scenario", "same-wri
                     "write-after-raising-write", "other-writer-raised-before", "lanelet-type/empty", "goal/lanelets",
                     "probe-after-history", "probe-after-other-format",
                     "value/int-coordinates", "scenario/traffic-sign", "scenario/traffic-light", "value/empty-planning-problem-set",
-                    "value/empty-tags", "value/large-magnitude", "ctor/some-arguments-explicit", "ctor/numpy-precision",
+                    "value/empty-tags", "value/large-magnitude", "value/tiny-boundary-coordinate", "value/below-resolution-of-coarser-writer-between",
+                    "value/below-resolution-of-coarser-writer-between/later-xml", "value/below-resolution-of-coarser-writer-between/later-pb",
+                    "value/below-resolution-of-coarser-writer-between/same-writer-again", "ctor/some-arguments-explicit", "ctor/numpy-precision",
                     "ctor/default-file-format", "write/check-validity", "write/keyword-arguments", "ask/input-raises",
                     "write/no-such-directory", "write-after-failed-call", "setglobal-then-write", "set-then-write",
                     "edit-then-write", "query-then-write", "queryw-then-write",
@@ -93,7 +97,8 @@ EXTRA_MODULES = ["CRProps.T15"]      # translator tie: Gen.SrcC15 (regenerated f
 # signatures on every run: a parameter / member / attribute the table does not know stops the run (exit 2).
 DIMENSIONS = {
     "ctor": {   # FileWriter.__init__ (= XMLFileWriter / ProtobufFileWriter) and CommonRoadFileWriter.__init__
-        "scenario": "1..2 generated inputs per history; lanelet types 0..2, traffic sign / light present or not, obstacle coordinates float or "
+        "scenario": "1..2 generated inputs per history; lanelet boundary coordinates that are themselves 0 or m*10**-e, e = 1..13 (below the "
+                    "resolution of a coarser writer used in between, above that of the later one: value/below-resolution-of-coarser-writer-between); lanelet types 0..2, traffic sign / light present or not, obstacle coordinates float or "
                     "int, empty or non-empty tags, location None / given; edited in place between writes (edit ops); queried (query ops)",
         "planning_problem_set": "0 (empty set), 1 or 2 planning problems; goal by shape or by lanelets; a creator that raises; add_planning_problem between writes",
         "author": "each of author / affiliation / source / tags / location is given explicitly or left None per WRITER (new-op option "
@@ -200,6 +205,21 @@ def gen_value(r):
     return r.random() * r.choice([1, 1, 10])
 
 
+def gen_tiny(r):
+    if r.random() < 0.15:
+        return 0.0
+    m = r.choice(["1", "4", "9.99", "5", "2.5", "1.0000001", "4.9999999", "5.0000001"])
+    return float(f"{r.choice(['', '-'])}{m}e-{r.randint(1, 13)}")
+
+
+def tiny_values(spec):
+    """the non-zero small boundary coordinates build_input() puts into the lanelet network of `spec`"""
+    t = spec.get("tiny")
+    if not t:
+        return []
+    return [x for x in (t[:2] + (t[2:5] if spec["nl"] >= 2 else [])) if x != 0.0]
+
+
 def gen_input(r, k):
     return {"id": k, "name": bench_name(k), "dt": r.choice([0.1, 0.04, 0.2]), "nl": r.randint(2, 4),
             "width": r.choice([3.0, 3.5, 2.123456789]), "seg": r.choice([10.0, 7.25, 12.987654321]),
@@ -215,7 +235,10 @@ def gen_input(r, k):
             "goal_lanelets": r.random() < 0.4,
             # a goal time interval with float ends: the node / message creator of the planning problem raises
             # (XML: AssertionError in create_interval_node_int, inside the with-block; protobuf: TypeError)
-            "bad_goal_time": r.random() < 0.12}
+            "bad_goal_time": r.random() < 0.12,
+            # lanelet BOUNDARY coordinates that are themselves small: 0 or sign * m * 10**-e with e over every decade 1..13, i.e.
+            # below the resolution of some of the precisions 1..12 in play and above that of others (build_input: slots)
+            "tiny": [gen_tiny(r) for _ in range(5)] if r.random() < 0.85 else None}
 
 
 def build_input(spec):
@@ -245,6 +268,11 @@ def build_input(spec):
         x0, x1, xm = i * seg, (i + 1) * seg, (i + 0.5) * seg + v[i % len(v)]
         c = np.array([[x0, 0.0], [xm, v[(i + 1) % len(v)] * 0.01], [x1, 0.0]])
         left, right = c + np.array([0.0, w / 2]), c - np.array([0.0, w / 2])
+        tiny = spec.get("tiny")
+        if tiny and i == 0:          # the road starts a little off the origin of the local frame (x0 = 0 otherwise)
+            left[0][0], right[0][0] = tiny[0], tiny[1]
+        if tiny and i == 1:          # the right boundary of this lanelet runs (almost) on the x axis
+            right[:, 1] = tiny[2:5]
         lanelets.append(Lanelet(left, c, right, 10 * k + i + 1, predecessor=[10 * k + i] if i > 0 else [],
                                 successor=[10 * k + i + 2] if i < n - 1 else [],
                                 **({"lanelet_type": {LaneletType[t] for t in ltypes[i]}} if ltypes[i] else {})))
@@ -611,6 +639,54 @@ def do_write(writer, kind, file, mode, answer, date=None, opts=None):
         builtins.input = old
 
 
+def snapshot(inp):
+    """The numbers of the arguments a writer was given, taken without any library accessor that could compute or copy: the
+    raw bytes of every numpy array and the repr of every float / int reachable from the lanelets, obstacles (initial state,
+    prediction states, shapes) and planning problems' initial states.  Used only to EXPLAIN a file that differs from its twin
+    (the verdict is the twin comparison: C15's sentence)."""
+    import numpy as np
+    out = {}
+
+    def walk(name, o, depth=0):
+        if isinstance(o, np.ndarray):
+            out[name] = (str(o.dtype), o.shape, o.tobytes())
+        elif isinstance(o, (float, int, np.floating, np.integer)) and not isinstance(o, bool):
+            out[name] = repr(o)
+        elif isinstance(o, (list, tuple)) and depth < 6:
+            for j, x in enumerate(o):
+                walk(f"{name}[{j}]", x, depth + 1)
+        elif hasattr(o, "__dict__") and depth < 6 and type(o).__module__.startswith("commonroad"):
+            for k2, x in vars(o).items():
+                if k2 not in ("_lanelet_network", "_polygon", "_shapely_polygon", "_strtee", "_buffered_polygons", "_lanelet_id_index_by_id"):
+                    walk(f"{name}.{k2.lstrip('_')}", x, depth + 1)
+
+    sc = inp["scenario"]
+    for l in sc.lanelet_network.lanelets:
+        for k2, x in vars(l).items():
+            if isinstance(x, np.ndarray):
+                out[f"lanelet {l.lanelet_id} {k2.lstrip('_')}"] = (str(x.dtype), x.shape, x.tobytes())
+    for o in sc.obstacles:
+        walk(f"obstacle {o.obstacle_id}", o)
+    for pid, pp in inp["pps"].planning_problem_dict.items():
+        walk(f"planning problem {pid} initial_state", pp.initial_state)
+    return out
+
+
+def snapshot_diff(a, b):
+    import numpy as np
+    names = sorted(k for k in set(a) | set(b) if a.get(k) != b.get(k))
+    if not names:
+        return ""
+    k = names[0]
+    def show(v):
+        if v is None:
+            return "absent"
+        if isinstance(v, tuple):
+            return str(np.frombuffer(v[2], dtype=v[0]).reshape(v[1]).tolist())
+        return v
+    return f"{k}: {show(a.get(k))} -> {show(b.get(k))}" + (f" (+{len(names) - 1} more)" if len(names) > 1 else "")
+
+
 def reference(inputs, key, cache, refdir):
     """Content (date erased) and read-back of ONE call on a freshly constructed writer for the arguments as they are at that
     moment — scenario, planning problems, ... rebuilt from the specification for every reference, with the in-place edits
@@ -669,6 +745,7 @@ def run_case(ctx, case, model=True):
         over, last_content = {}, {}                       # per writer: values given explicitly / by setters; last file written
         vis, op_version = {}, {}      # per op index: (erased content, read-back) of a visible write; version of the arguments
         order = []                       # labels in order of construction (model index)
+        mutated = {}                     # per input: (label, fmt, prec, what) of every write call that changed the arguments it was given
         for op in case["ops"]:
             if op[0] == "setglobal":             # user code assigns the public module global
                 precision.decimals = op[1]
@@ -741,8 +818,12 @@ def run_case(ctx, case, model=True):
             before = {rel: open(p, "rb").read() for rel, p in list_files(work).items()}
             for p in list_files(work).values():
                 os.utime(p, ns=(10 ** 9, 10 ** 9))
+            snap = snapshot(inputs[mt["inp"]])
             r = do_write(writers[label], kind, file, mode, answer, date, wopts)
             gprecs.append(int(precision.decimals))
+            moved = snapshot_diff(snap, snapshot(inputs[mt["inp"]]))
+            if moved:
+                mutated.setdefault(mt["inp"], []).append((label, mt["fmt"], mt["prec"], moved))
             after = list_files(work)
             now = {rel: open(p, "rb").read() for rel, p in after.items()}
             # visible change: a new file, or other bytes than before (date stamp aside)
@@ -752,7 +833,8 @@ def run_case(ctx, case, model=True):
             changed = sorted(set(visible) | {rel for rel, p in after.items() if not keep and os.stat(p).st_mtime_ns != 10 ** 9})
             ev = {"label": label, "kind": kind, "file": file, "mode": mode, "changed": changed, "result": r[0], "answer": answer,
                   "prior_writes": mt["writes"], "since": [e for e in events[mt["born"] + 1:]], "opts": wopts,
-                  "edits": tuple(edits[mt["inp"]]), "over": over_key(over[label])}
+                  "edits": tuple(edits[mt["inp"]]), "over": over_key(over[label]),
+                  "mutated_before": list(mutated.get(mt["inp"], []))}
             seen_date = ""
             if r[0] == "err":
                 outcomes.append({"err": r[1]})
@@ -927,6 +1009,12 @@ def run_case(ctx, case, model=True):
                         if alt["content"] == got:
                             obs, why = "precision-of-other-writer", f" — it is the content for decimal_precision={p2}, the precision of a writer constructed in between"
                             break
+                byother = [x for x in ev["mutated_before"] if x[0] != ev["label"]]
+                if obs == "content-differs" and byother:
+                    l2, f2, p2, moved = byother[-1]
+                    obs, why = "content-differs-after-other-writer-changed-arguments", (
+                        f" — the write call of another writer in between ({f2}, decimal_precision={p2}) modified the scenario / "
+                        f"planning-problem objects it was given in place: {moved}")
                 if obs == "content-differs" and ev["prior_writes"] > 0:
                     obs, why = "second-write-differs", f" — write number {ev['prior_writes'] + 1} of this writer object"
                 ctx.fail(f"{site}/{obs}",
@@ -996,6 +1084,24 @@ def classify(ctx, case, meta, events):
             ctx.tag("lanelet-type/empty")
         if sp.get("goal_lanelets"):
             ctx.tag("goal/lanelets")
+        if tiny_values(sp):
+            ctx.tag("value/tiny-boundary-coordinate")
+    # a boundary coordinate t below the resolution of a COARSER XML writer that performed a write, and a LATER performed write
+    # of another writer on the same input that resolves t (finer XML precision, or protobuf = full doubles)
+    coarse = {}
+    for e in events:
+        if e[0] != "write" or e[2].get("content") is None:
+            continue
+        m = meta[e[2]["label"]]
+        ts = [abs(t) for t in tiny_values(case["inputs"][m["inp"]])]
+        for (l2, pc) in coarse.get(m["inp"], []):
+            if l2 != e[2]["label"] and any(t < 10.0 ** -pc and (m["fmt"] == "pb" or (m["prec"] > pc and t >= 10.0 ** -m["prec"])) for t in ts):
+                ctx.tag("value/below-resolution-of-coarser-writer-between")
+                ctx.tag(f"value/below-resolution-of-coarser-writer-between/later-{m['fmt']}")
+                if m["writes"] > 1 and e[2]["prior_writes"] > 0:
+                    ctx.tag("value/below-resolution-of-coarser-writer-between/same-writer-again")
+        if m["fmt"] == "xml":
+            coarse.setdefault(m["inp"], []).append((e[2]["label"], m["prec"]))
     if len(case["inputs"]) > 1:
         ctx.tag("two-inputs")
     if case["pre"]:
